@@ -44,9 +44,21 @@ impl Edge {
     ) -> std::result::Result<(Vec<(Edge, String)>, Vec<Uid>), rusqlite::Error> {
         let mut stmt =
             conn.prepare_cached("SELECT room_id FROM _node WHERE id = ? AND _entity = ?")?;
+        let mut deleted_stmt = conn.prepare_cached(
+            "SELECT 1 FROM _edge_deletion_log WHERE src = ? AND label = ? AND dest = ? AND cdate = ?",
+        )?;
         let mut valid = Vec::new();
         let mut invalid = Vec::new();
         for (edge, name) in edges {
+            //an edge whose deletion is already stored stays deleted: a peer that has not seen the deletion yet still sends it
+            let deleted: Option<i64> = deleted_stmt
+                .query_row((&edge.src, &edge.label, &edge.dest, &edge.cdate), |row| {
+                    row.get(0)
+                })
+                .optional()?;
+            if deleted.is_some() {
+                continue;
+            }
             let source_room: Option<Option<Uid>> = stmt
                 .query_row((&edge.src, &edge.src_entity), |row| row.get(0))
                 .optional()?;
